@@ -990,7 +990,7 @@ func genC08(repo string) (string, error) {
 		}()
 		out.WriteString("(* GENERATED by tools/gotrans (c08.go) from server/command, registry/network.go and bot/configuration.go - do not edit *)\n")
 		out.WriteString("From Coq Require Import ZArith NArith Bool List String.\n")
-		out.WriteString("From GoMC Require Import Base.Bytes Base.Dec Model.C05 Model.C06 Model.C08 Model.C08_syntax.\n")
+		out.WriteString("From GoMC Require Import Base.Bytes Base.Dec Model.C05 Model.C06 Model.C08 Model.C08_syntax Model.C08_sites.\n")
 		out.WriteString("Import ListNotations.\nLocal Open Scope string_scope.\nLocal Open Scope bool_scope.\n\n")
 
 		fset := token.NewFileSet()
@@ -1090,6 +1090,7 @@ func genC08(repo string) (string, error) {
 				}
 				return found
 			})
+		genC08sites(repo, &out)
 	}()
 	return out.String(), err
 }
@@ -1107,3 +1108,700 @@ func emitC08(repo, outdir string) {
 }
 
 var _ = parser.ParseFile
+
+// ---------------------------------------------------------------- phase 5: every decode site
+//
+// c8sites enumerates every `<x>.Scan(args...)` call of bot/... and server/... and every ReadFrom method
+// of the packages listed in c8methodPkgs, classifies each argument / each read by the DECLARED type of
+// what is read (AST only: var declarations, struct fields, conversions (*pk.T)(...), pk.Array / pk.Tuple /
+// pk.Opt / pk.Option / pk.NBT wrappers) and emits rows (name, source text, descriptor of
+// Model/C08_sites.v).  A read through a type whose ReadFrom method is in one of these packages is
+// expanded in place (a cycle is an error).  Anything that cannot be classified is an error.
+
+type c8pkg struct {
+	dir     string
+	name    string
+	files   []*ast.File
+	structs map[string]*ast.StructType
+	types   map[string]ast.Expr      // non-struct named types
+	reads   map[string]*ast.FuncDecl // receiver type name -> ReadFrom method
+	imports map[*ast.File]map[string]string
+}
+
+type c8sites struct {
+	fset   *token.FileSet
+	repo   string
+	pkgs   map[string]*c8pkg // by directory
+	byName map[string]*c8pkg // by package name as written in qualifiers
+	choice int
+	stack  []string
+}
+
+func (t *c8sites) fail(n ast.Node, f string, a ...any) {
+	panic(c8fail{fmt.Sprintf("%s: %s", t.fset.Position(n.Pos()), fmt.Sprintf(f, a...))})
+}
+func (t *c8sites) text(n ast.Node) string {
+	var b bytes.Buffer
+	printer.Fprint(&b, t.fset, n)
+	return strings.Join(strings.Fields(b.String()), " ")
+}
+
+func (t *c8sites) load(dir string) *c8pkg {
+	if p, ok := t.pkgs[dir]; ok {
+		return p
+	}
+	files, name, err := parseDir(t.fset, filepath.Join(t.repo, dir))
+	if err != nil || len(files) == 0 {
+		panic(c8fail{fmt.Sprintf("cannot parse %s: %v", dir, err)})
+	}
+	p := &c8pkg{dir: dir, name: name, files: files, structs: map[string]*ast.StructType{}, types: map[string]ast.Expr{},
+		reads: map[string]*ast.FuncDecl{}, imports: map[*ast.File]map[string]string{}}
+	for _, f := range files {
+		im := map[string]string{}
+		for _, is := range f.Imports {
+			path, _ := strconv.Unquote(is.Path.Value)
+			alias := path[strings.LastIndex(path, "/")+1:]
+			if is.Name != nil {
+				alias = is.Name.Name
+			}
+			im[alias] = path
+		}
+		p.imports[f] = im
+		for _, d := range f.Decls {
+			switch x := d.(type) {
+			case *ast.GenDecl:
+				if x.Tok != token.TYPE {
+					continue
+				}
+				for _, sp := range x.Specs {
+					ts := sp.(*ast.TypeSpec)
+					if st, ok := ts.Type.(*ast.StructType); ok {
+						p.structs[ts.Name.Name] = st
+					} else {
+						p.types[ts.Name.Name] = ts.Type
+					}
+				}
+			case *ast.FuncDecl:
+				if x.Name.Name == "ReadFrom" && x.Recv != nil && x.Body != nil {
+					p.reads[c8recvName(x)] = x
+				}
+			}
+		}
+	}
+	t.pkgs[dir] = p
+	return p
+}
+
+func c8recvName(fd *ast.FuncDecl) string {
+	ty := fd.Recv.List[0].Type
+	if st, ok := ty.(*ast.StarExpr); ok {
+		ty = st.X
+	}
+	if ix, ok := ty.(*ast.IndexExpr); ok {
+		ty = ix.X
+	}
+	if id, ok := ty.(*ast.Ident); ok {
+		return id.Name
+	}
+	return "?"
+}
+
+// the packages a qualifier can denote (by import path suffix) and their directories
+var c8qualDirs = map[string]string{
+	"github.com/Tnze/go-mc/chat": "chat", "github.com/Tnze/go-mc/chat/sign": "chat/sign",
+	"github.com/Tnze/go-mc/level": "level", "github.com/Tnze/go-mc/level/component": "level/component",
+	"github.com/Tnze/go-mc/yggdrasil/user": "yggdrasil/user", "github.com/Tnze/go-mc/bot": "bot",
+	"github.com/Tnze/go-mc/bot/screen": "bot/screen",
+}
+
+var c8leaf = map[string]string{
+	"Boolean": "TBool", "Byte": "TByte", "UnsignedByte": "TUByte", "Short": "TShort", "UnsignedShort": "TUShort",
+	"Int": "TInt", "Long": "TLong", "Float": "TFloat", "Double": "TDouble", "VarInt": "TVarInt", "VarLong": "TVarLong",
+	"String": "TString", "Identifier": "TString", "ByteArray": "TByteArray", "UUID": "TUUID", "Angle": "TAngle",
+	"Position": "TPosition", "BitSet": "TBitSet",
+}
+
+// where an expression is evaluated: package, file, enclosing function
+type c8where struct {
+	p    *c8pkg
+	file *ast.File
+	fn   *ast.FuncDecl
+	pos  token.Pos
+}
+
+func (t *c8sites) isPk(w c8where, q string) bool {
+	return w.p.imports[w.file][q] == "github.com/Tnze/go-mc/net/packet"
+}
+
+// classify a TYPE expression
+func (t *c8sites) ty(w c8where, e ast.Expr) string {
+	switch x := e.(type) {
+	case *ast.ParenExpr:
+		return t.ty(w, x.X)
+	case *ast.StarExpr:
+		return t.ty(w, x.X)
+	case *ast.SelectorExpr:
+		q, ok := x.X.(*ast.Ident)
+		if !ok {
+			t.fail(e, "type %s", t.text(e))
+		}
+		if t.isPk(w, q.Name) {
+			if l, ok := c8leaf[x.Sel.Name]; ok {
+				return "DF " + l
+			}
+			switch x.Sel.Name {
+			case "FixedBitSet":
+				return "DExt \"FixedBitSet\""
+			case "PluginMessageData":
+				return "DRest"
+			}
+			t.fail(e, "packet type %s is not classified", x.Sel.Name)
+		}
+		path := w.p.imports[w.file][q.Name]
+		switch path + "." + x.Sel.Name {
+		case "github.com/Tnze/go-mc/chat.Message":
+			return "DExt \"chat.Message\""
+		case "github.com/Tnze/go-mc/chat.JsonMessage":
+			return "DExt \"chat.JsonMessage\""
+		case "github.com/Tnze/go-mc/level.Chunk":
+			return "DExt \"level.Chunk\""
+		}
+		dir, ok := c8qualDirs[path]
+		if !ok {
+			t.fail(e, "type %s of package %q is not classified", t.text(e), path)
+		}
+		return t.named(t.load(dir), x.Sel.Name, e)
+	case *ast.Ident:
+		if w.p.dir == "chat" && x.Name == "Message" {
+			return "DExt \"chat.Message\""
+		}
+		return t.named(w.p, x.Name, e)
+	case *ast.StructType:
+		// an anonymous struct has no methods: pk.Ary type-asserts its element to FieldDecoder and panics
+		return "DPanic " + coqstr("element type "+t.text(e)+" is not a FieldDecoder")
+	case *ast.IndexListExpr:
+		if sel, ok := x.X.(*ast.SelectorExpr); ok && sel.Sel.Name == "Option" {
+			if q, ok := sel.X.(*ast.Ident); ok && t.isPk(w, q.Name) && len(x.Indices) == 2 {
+				return "DOption (" + t.ty(w, x.Indices[0]) + ")"
+			}
+		}
+	}
+	t.fail(e, "type %s is not classified", t.text(e))
+	return ""
+}
+
+// a named type of package p: its ReadFrom method expanded, or the decoder it embeds
+func (t *c8sites) named(p *c8pkg, name string, at ast.Node) string {
+	key := p.dir + "." + name
+	if fd, ok := p.reads[name]; ok {
+		for _, s := range t.stack {
+			if s == key {
+				t.fail(at, "ReadFrom methods refer to each other in a cycle through %s", key)
+			}
+		}
+		t.stack = append(t.stack, key)
+		d := t.method(p, fd)
+		t.stack = t.stack[:len(t.stack)-1]
+		return d
+	}
+	if st, ok := p.structs[name]; ok {
+		// a struct without its own ReadFrom: the method promoted from its single embedded field
+		var emb []*ast.Field
+		for _, f := range st.Fields.List {
+			if len(f.Names) == 0 {
+				emb = append(emb, f)
+			}
+		}
+		if len(emb) == 1 {
+			return t.ty(t.whereOfType(p, st), emb[0].Type)
+		}
+	}
+	if _, ok := p.structs[name]; ok {
+		// compiles only as the element of a pk.Array, whose ReadFrom type-asserts it to FieldDecoder
+		return "DPanic " + coqstr("type "+p.dir+"."+name+" is not a FieldDecoder")
+	}
+	t.fail(at, "type %s.%s has no ReadFrom method", p.dir, name)
+	return ""
+}
+
+func (t *c8sites) whereOfType(p *c8pkg, n ast.Node) c8where {
+	for _, f := range p.files {
+		if f.Pos() <= n.Pos() && n.Pos() < f.End() {
+			return c8where{p: p, file: f}
+		}
+	}
+	return c8where{p: p, file: p.files[0]}
+}
+
+// the declared type of an identifier used at w.pos inside w.fn
+func (t *c8sites) varType(w c8where, name string, at ast.Node) (ast.Expr, c8where) {
+	fd := w.fn
+	if fd.Recv != nil && len(fd.Recv.List[0].Names) == 1 && fd.Recv.List[0].Names[0].Name == name {
+		return fd.Recv.List[0].Type, w
+	}
+	var found ast.Expr
+	var foundPos token.Pos
+	take := func(pos token.Pos, e ast.Expr) {
+		if pos < w.pos && pos >= foundPos {
+			found, foundPos = e, pos
+		}
+	}
+	for _, f := range fd.Type.Params.List {
+		for _, n := range f.Names {
+			if n.Name == name {
+				take(n.Pos(), f.Type)
+			}
+		}
+	}
+	ast.Inspect(fd.Body, func(n ast.Node) bool {
+		switch x := n.(type) {
+		case *ast.FuncLit:
+			for _, f := range x.Type.Params.List {
+				for _, nm := range f.Names {
+					if nm.Name == name {
+						take(nm.Pos(), f.Type)
+					}
+				}
+			}
+		case *ast.ValueSpec:
+			for _, nm := range x.Names {
+				if nm.Name == name && x.Type != nil {
+					take(nm.Pos(), x.Type)
+				}
+			}
+		case *ast.AssignStmt:
+			if x.Tok == token.DEFINE && len(x.Lhs) == len(x.Rhs) {
+				for i, l := range x.Lhs {
+					if id, ok := l.(*ast.Ident); ok && id.Name == name {
+						switch r := x.Rhs[i].(type) {
+						case *ast.CallExpr:
+							switch t.text(r.Fun) {
+							case "level.EmptyChunk":
+								take(id.Pos(), &ast.SelectorExpr{X: &ast.Ident{Name: "level", NamePos: id.Pos()}, Sel: &ast.Ident{Name: "Chunk"}})
+							case "new":
+								take(id.Pos(), r.Args[0])
+							}
+						case *ast.CompositeLit:
+							take(id.Pos(), r.Type)
+						case *ast.UnaryExpr:
+							if cl, ok := r.X.(*ast.CompositeLit); ok && r.Op == token.AND {
+								take(id.Pos(), cl.Type)
+							}
+						}
+					}
+				}
+			}
+		}
+		return true
+	})
+	if found == nil {
+		t.fail(at, "no declaration with a type found for %s", name)
+	}
+	return found, w
+}
+
+// the type of a value expression (identifier or field selection)
+func (t *c8sites) exprType(w c8where, e ast.Expr) (ast.Expr, c8where) {
+	switch x := e.(type) {
+	case *ast.ParenExpr:
+		return t.exprType(w, x.X)
+	case *ast.Ident:
+		return t.varType(w, x.Name, e)
+	case *ast.SelectorExpr:
+		bt, bw := t.exprType(w, x.X)
+		// the struct type bt denotes
+		for {
+			if st, ok := bt.(*ast.StarExpr); ok {
+				bt = st.X
+				continue
+			}
+			break
+		}
+		var p *c8pkg
+		var name string
+		switch y := bt.(type) {
+		case *ast.Ident:
+			p, name = bw.p, y.Name
+		case *ast.SelectorExpr:
+			q := y.X.(*ast.Ident)
+			dir, ok := c8qualDirs[bw.p.imports[bw.file][q.Name]]
+			if !ok {
+				t.fail(e, "struct type %s is not known", t.text(bt))
+			}
+			p, name = t.load(dir), y.Sel.Name
+		default:
+			t.fail(e, "field selection on %s", t.text(bt))
+		}
+		st, ok := p.structs[name]
+		if !ok {
+			t.fail(e, "%s.%s is not a struct", p.dir, name)
+		}
+		for _, f := range st.Fields.List {
+			for _, n := range f.Names {
+				if n.Name == x.Sel.Name {
+					return f.Type, t.whereOfType(p, st)
+				}
+			}
+			if len(f.Names) == 0 { // embedded
+				et := f.Type
+				if se, ok := et.(*ast.StarExpr); ok {
+					et = se.X
+				}
+				en := ""
+				switch z := et.(type) {
+				case *ast.Ident:
+					en = z.Name
+				case *ast.SelectorExpr:
+					en = z.Sel.Name
+				}
+				if en == x.Sel.Name {
+					return f.Type, t.whereOfType(p, st)
+				}
+			}
+		}
+		t.fail(e, "struct %s.%s has no field %s", p.dir, name, x.Sel.Name)
+	}
+	t.fail(e, "value expression %s", t.text(e))
+	return nil, w
+}
+
+// classify a FIELD expression: what is handed to Scan / put into a Tuple / has ReadFrom called on it
+func (t *c8sites) field(w c8where, e ast.Expr) string {
+	switch x := e.(type) {
+	case *ast.ParenExpr:
+		return t.field(w, x.X)
+	case *ast.UnaryExpr:
+		if x.Op == token.AND {
+			ty, tw := t.exprType(w, x.X)
+			return t.ty(tw, ty)
+		}
+	case *ast.Ident, *ast.SelectorExpr:
+		ty, tw := t.exprType(w, e)
+		return t.ty(tw, ty)
+	case *ast.CallExpr:
+		// conversion (*T)(...)
+		if pe, ok := x.Fun.(*ast.ParenExpr); ok {
+			if st, ok := pe.X.(*ast.StarExpr); ok {
+				return t.ty(w, st.X)
+			}
+		}
+		if sel, ok := x.Fun.(*ast.SelectorExpr); ok {
+			if q, ok := sel.X.(*ast.Ident); ok && t.isPk(w, q.Name) && len(x.Args) == 1 {
+				switch sel.Sel.Name {
+				case "Array":
+					return "DAry (" + t.elem(w, x.Args[0]) + ")"
+				case "NBT":
+					return "DExt \"NBT\""
+				}
+			}
+		}
+	case *ast.CompositeLit:
+		if sel, ok := x.Type.(*ast.SelectorExpr); ok {
+			if q, ok := sel.X.(*ast.Ident); ok && t.isPk(w, q.Name) {
+				switch sel.Sel.Name {
+				case "Tuple":
+					var ds []string
+					for _, el := range x.Elts {
+						ds = append(ds, t.field(w, el))
+					}
+					return "DSeq [" + strings.Join(ds, "; ") + "]"
+				case "NBTField":
+					return "DExt \"NBT\""
+				case "Opt":
+					var fld ast.Expr
+					for _, el := range x.Elts {
+						kv, ok := el.(*ast.KeyValueExpr)
+						if !ok {
+							t.fail(e, "pk.Opt without field names")
+						}
+						if t.text(kv.Key) == "Field" {
+							fld = kv.Value
+						}
+					}
+					if fld == nil {
+						t.fail(e, "pk.Opt without Field")
+					}
+					t.choice++
+					k := t.choice
+					return fmt.Sprintf("DChoice %d (%s) (DSeq [])", k, t.field(w, fld))
+				}
+			}
+		}
+	}
+	t.fail(e, "field expression %s is not classified", t.text(e))
+	return ""
+}
+
+// the element descriptor of the slice handed to pk.Array
+func (t *c8sites) elem(w c8where, arg ast.Expr) string {
+	var sl ast.Expr
+	var sw c8where
+	switch x := arg.(type) {
+	case *ast.UnaryExpr:
+		if x.Op == token.AND {
+			sl, sw = t.exprType(w, x.X)
+		}
+	case *ast.CallExpr: // (*[]T)(unsafe.Pointer(...))
+		if pe, ok := x.Fun.(*ast.ParenExpr); ok {
+			if st, ok := pe.X.(*ast.StarExpr); ok {
+				sl, sw = st.X, w
+			}
+		}
+	}
+	at, ok := sl.(*ast.ArrayType)
+	if !ok || at.Len != nil {
+		t.fail(arg, "argument of pk.Array is not a pointer to a slice: %s", t.text(arg))
+	}
+	return t.ty(sw, at.Elt)
+}
+
+// a ReadFrom method as a descriptor: its reads in source order
+func (t *c8sites) method(p *c8pkg, fd *ast.FuncDecl) string {
+	w := c8where{p: p, fn: fd}
+	for _, f := range p.files {
+		if f.Pos() <= fd.Pos() && fd.Pos() < f.End() {
+			w.file = f
+		}
+	}
+	if len(fd.Type.Params.List) != 1 || len(fd.Type.Params.List[0].Names) != 1 {
+		t.fail(fd, "ReadFrom with an unexpected parameter list")
+	}
+	rd := fd.Type.Params.List[0].Names[0].Name
+	ds := t.reads(w, rd, fd.Body.List)
+	return "DSeq [" + strings.Join(ds, "; ") + "]"
+}
+
+func (t *c8sites) hasRead(rd string, n ast.Node) bool {
+	found := false
+	ast.Inspect(n, func(m ast.Node) bool {
+		if c, ok := m.(*ast.CallExpr); ok {
+			if sel, ok := c.Fun.(*ast.SelectorExpr); ok {
+				if (sel.Sel.Name == "ReadFrom" || sel.Sel.Name == "Read") && len(c.Args) >= 1 {
+					found = true
+				}
+			}
+			if id, ok := c.Fun.(*ast.Ident); ok && id.Name == "panic" {
+				found = true
+			}
+		}
+		return true
+	})
+	return found
+}
+
+// the reads of one expression, in evaluation order
+func (t *c8sites) readsOf(w c8where, rd string, e ast.Node) []string {
+	var out []string
+	ast.Inspect(e, func(m ast.Node) bool {
+		c, ok := m.(*ast.CallExpr)
+		if !ok {
+			return true
+		}
+		if id, ok := c.Fun.(*ast.Ident); ok && id.Name == "panic" {
+			out = append(out, "DPanic "+coqstr(t.text(c)))
+			return false
+		}
+		sel, ok := c.Fun.(*ast.SelectorExpr)
+		if !ok {
+			return true
+		}
+		switch {
+		case sel.Sel.Name == "ReadFrom" && len(c.Args) == 1 && t.text(c.Args[0]) == rd:
+			w2 := w
+			w2.pos = c.Pos()
+			out = append(out, t.field(w2, sel.X))
+			return false
+		case sel.Sel.Name == "Read" && t.text(sel.X) == rd && len(c.Args) == 1:
+			se, ok := c.Args[0].(*ast.SliceExpr)
+			if !ok || se.Low != nil || se.High != nil {
+				t.fail(c, "Read into %s", t.text(c.Args[0]))
+			}
+			w2 := w
+			w2.pos = c.Pos()
+			ty, tw := t.exprType(w2, se.X)
+			out = append(out, fmt.Sprintf("DRaw %d", t.arrayLen(tw, ty, c)))
+			return false
+		case sel.Sel.Name == "ReadFrom" || sel.Sel.Name == "Read":
+			t.fail(c, "a read that does not use the method's reader: %s", t.text(c))
+		}
+		return true
+	})
+	return out
+}
+
+func (t *c8sites) arrayLen(w c8where, ty ast.Expr, at ast.Node) int64 {
+	for {
+		switch x := ty.(type) {
+		case *ast.StarExpr:
+			ty = x.X
+			continue
+		case *ast.ArrayType:
+			if lit, ok := x.Len.(*ast.BasicLit); ok {
+				n, err := strconv.ParseInt(lit.Value, 0, 64)
+				if err == nil {
+					return n
+				}
+			}
+		case *ast.Ident:
+			if u, ok := w.p.types[x.Name]; ok {
+				ty = u
+				continue
+			}
+		}
+		t.fail(at, "the length of %s is not a literal", t.text(ty))
+	}
+}
+
+// an unconditional error return: return ..., errors.New(..) / fmt.Errorf(..)
+func (t *c8sites) failOf(s ast.Stmt) string {
+	rs, ok := s.(*ast.ReturnStmt)
+	if !ok || len(rs.Results) == 0 {
+		return ""
+	}
+	if c, ok := rs.Results[len(rs.Results)-1].(*ast.CallExpr); ok {
+		if fn := t.text(c.Fun); fn == "errors.New" || fn == "fmt.Errorf" {
+			return "DFail " + coqstr(t.text(c))
+		}
+	}
+	return ""
+}
+
+func (t *c8sites) hasFail(n ast.Node) bool {
+	found := false
+	ast.Inspect(n, func(m ast.Node) bool {
+		if s, ok := m.(ast.Stmt); ok && t.failOf(s) != "" {
+			found = true
+		}
+		return true
+	})
+	return found
+}
+
+func (t *c8sites) reads(w c8where, rd string, l []ast.Stmt) []string {
+	var out []string
+	for _, s := range l {
+		if !t.hasRead(rd, s) && !t.hasFail(s) {
+			continue
+		}
+		switch x := s.(type) {
+		case *ast.ExprStmt, *ast.AssignStmt:
+			out = append(out, t.readsOf(w, rd, s)...)
+		case *ast.ReturnStmt:
+			out = append(out, t.readsOf(w, rd, s)...)
+			if f := t.failOf(s); f != "" {
+				out = append(out, f)
+			}
+		case *ast.IfStmt:
+			if x.Init != nil {
+				out = append(out, t.readsOf(w, rd, x.Init)...)
+			}
+			if t.hasRead(rd, x.Cond) {
+				t.fail(x, "a read inside a condition")
+			}
+			if t.text(x.Cond) == "err != nil" {
+				// the error branch of the read before it: returns, reads nothing
+				if t.hasRead(rd, x.Body) || x.Else != nil {
+					t.fail(x, "reads in the error branch")
+				}
+				continue
+			}
+			var a, b []string
+			a = t.reads(w, rd, x.Body.List)
+			switch e := x.Else.(type) {
+			case nil:
+			case *ast.BlockStmt:
+				b = t.reads(w, rd, e.List)
+			case *ast.IfStmt:
+				b = t.reads(w, rd, []ast.Stmt{e})
+			}
+			if len(a)+len(b) > 0 {
+				t.choice++
+				out = append(out, fmt.Sprintf("DChoice %d (DSeq [%s]) (DSeq [%s])", t.choice, strings.Join(a, "; "), strings.Join(b, "; ")))
+			}
+		default:
+			t.fail(s, "statement with a read, a panic or an error return inside: %s (%T)", t.text(s), s)
+		}
+	}
+	return out
+}
+
+var c8scanDirs = []string{"bot", "bot/basic", "bot/msg", "bot/playerlist", "bot/screen", "bot/world", "server", "server/auth"}
+var c8methodDirs = []string{"chat/sign", "level/component", "yggdrasil/user", "bot", "bot/screen"}
+
+// methods translated elsewhere (loops with their own skeletons and interpretation lemmas)
+var c8methodSkip = map[string]bool{"bot.idleTagsDecoder": true}
+
+func genC08sites(repo string, out *bytes.Buffer) {
+	t := &c8sites{fset: token.NewFileSet(), repo: repo, pkgs: map[string]*c8pkg{}}
+	type rowT struct{ name, text, desc string }
+	var scans, meths []rowT
+	for _, dir := range c8scanDirs {
+		p := t.load(dir)
+		for _, f := range p.files {
+			fname := filepath.Base(t.fset.Position(f.Pos()).Filename)
+			for _, d := range f.Decls {
+				fd, ok := d.(*ast.FuncDecl)
+				if !ok || fd.Body == nil {
+					continue
+				}
+				k := 0
+				ast.Inspect(fd.Body, func(n ast.Node) bool {
+					c, ok := n.(*ast.CallExpr)
+					if !ok {
+						return true
+					}
+					sel, ok := c.Fun.(*ast.SelectorExpr)
+					if !ok || sel.Sel.Name != "Scan" {
+						return true
+					}
+					k++
+					w := c8where{p: p, file: f, fn: fd, pos: c.Pos()}
+					var ds []string
+					for _, a := range c.Args {
+						ds = append(ds, t.field(w, a))
+					}
+					scans = append(scans, rowT{fmt.Sprintf("%s/%s:%s#%d", dir, fname, fd.Name.Name, k), t.text(c), "DSeq [" + strings.Join(ds, "; ") + "]"})
+					return true
+				})
+			}
+		}
+	}
+	for _, dir := range c8methodDirs {
+		p := t.load(dir)
+		var names []string
+		for n := range p.reads {
+			names = append(names, n)
+		}
+		sortStrings(names)
+		for _, n := range names {
+			if c8methodSkip[dir+"."+n] {
+				continue
+			}
+			fd := p.reads[n]
+			t.stack = []string{dir + "." + n}
+			meths = append(meths, rowT{dir + "." + n, t.text(fd.Body), t.method(p, fd)})
+			t.stack = nil
+		}
+	}
+	emit := func(name string, rows []rowT) {
+		fmt.Fprintf(out, "Definition %s : list row :=\n  [", name)
+		for i, r := range rows {
+			if i > 0 {
+				out.WriteString(";\n   ")
+			}
+			fmt.Fprintf(out, "mkRow %s\n     %s\n     (%s)", coqstr(r.name), coqstr(r.text), r.desc)
+		}
+		out.WriteString("].\n\n")
+	}
+	out.WriteString("(* ---- phase 5: every Scan site of bot/... and server/..., every ReadFrom method of chat/sign,\n   level/component, yggdrasil/user, bot, bot/screen ---- *)\n")
+	emit("c08_scan_sites", scans)
+	emit("c08_readfrom_sites", meths)
+}
+
+func sortStrings(a []string) {
+	for i := 1; i < len(a); i++ {
+		for j := i; j > 0 && a[j] < a[j-1]; j-- {
+			a[j], a[j-1] = a[j-1], a[j]
+		}
+	}
+}
